@@ -100,7 +100,12 @@ def base_arrays():
     out["f8_44"] = np.eye(4) + np.arange(16, dtype=np.float64).reshape(4, 4) * 0.125
     out["b_232"] = (np.arange(12).reshape(2, 3, 2) % 3 == 0)
     out["f8_03"] = np.zeros((0, 3), dtype=np.float64)
+    # coordinates near the largest double: `+=` / `-=` overflow (only used with the raising writers)
+    out["f8_big"] = out["f8_n3"] * 3e307 * np.array([1.0, -1.0, 1.0])
     return out
+
+
+RAISES_ONLY_BASES = ("f8_big",)
 
 
 # ----------------------------------------------------------------------------
@@ -156,6 +161,32 @@ def _mask(T):
     if m.size:
         m.flat[:: 2] = True
     return m
+
+
+def _zero_last(T, value=2, last=0, dtype=None):
+    """Base-class operand of T's shape: `value` everywhere, `last` in the last place."""
+    d = np.full(T.shape, value, dtype=dtype or T.dtype)
+    if d.size:
+        d.flat[-1] = last
+    return d
+
+
+class _Unconvertible:
+    """A value numpy cannot convert to any dtype the library stores."""
+
+    def _no(self, *a):
+        raise ValueError("not a number")
+
+    __float__ = __int__ = __index__ = __bool__ = __complex__ = _no
+
+
+def _bad_last(P):
+    """Object array of the values of P whose last element cannot be converted."""
+    if P.ndim == 0 or P.size < 2:
+        raise TypeError("n/a")
+    o = P.astype(object)
+    o.flat[-1] = _Unconvertible()
+    return o
 
 
 def _ops():
@@ -532,6 +563,92 @@ def _ops():
         first = memoryview(T).cast("B")[0]
         struct.pack_into("B", T, 0, first ^ 0xFF)
 
+    # ---- round 5: overridden mutators which WRITE AND THEN RAISE (group "raises").  numpy stores
+    # first and reports afterwards in several places: in-place operators under
+    # `np.errstate(...="raise")` (the whole result is stored, then the floating point flags are
+    # looked at), `put` in its default mode (indices are checked while writing), assignment of
+    # values whose conversion fails late (elements are converted one by one into the target).
+    # The program survives the exception (run_program catches it) and reads hashes afterwards.
+    # Where the dtype makes numpy refuse the call before writing, the step is a byte-preserving
+    # one - judged all the same.  Kept out of the length-2 enumeration (phase 2d drives them).
+    def raises(name):
+        def deco(fn):
+            def wrapped(T, st):
+                with np.errstate(all="raise"):
+                    fn(T, st)
+
+            ops.append(Op(name, "raises", wrapped))
+            return fn
+
+        return deco
+
+    @raises("itruediv_zero_divisor")
+    def _(T, st):
+        T /= _zero_last(T)
+
+    @raises("ifloordiv_zero_divisor")
+    def _(T, st):
+        T //= _zero_last(T)
+
+    @raises("imod_zero_divisor")
+    def _(T, st):
+        T %= _zero_last(T)
+
+    @raises("imul_overflow")
+    def _(T, st):
+        T *= np.full(T.shape, 1e308)
+
+    @raises("ipow_overflow")
+    def _(T, st):
+        T **= 5000
+
+    @raises("ipow_negative_integer_exponent")
+    def _(T, st):
+        T **= _zero_last(T, 2, last=-1, dtype=np.int64)
+
+    @raises("iadd_overflow")
+    def _(T, st):
+        T += np.array(T)  # overflows where |x| > max / 2 (base f8_big)
+
+    @raises("isub_overflow")
+    def _(T, st):
+        T -= -np.array(T)
+
+    @raises("put_late_bad_index")
+    def _(T, st):
+        T.put([0, 1, 2, T.size + 5], _other(T).ravel()[:4])
+
+    @raises("np_put_late_bad_index")
+    def _(T, st):
+        np.put(T, [1, 0, T.size + 5, 2], _other(T).ravel()[:4])
+
+    @raises("put_late_bad_index_kw")
+    def _(T, st):
+        T.put(indices=[0, -T.size - 3], values=_other(T).ravel()[:2], mode="raise")
+
+    @raises("setitem_late_conversion_failure")
+    def _(T, st):
+        T[...] = _bad_last(_other(T))
+
+    @raises("setitem_slice_late_conversion_failure")
+    def _(T, st):
+        T[1:] = _bad_last(_other(T)[1:])
+
+    @raises("setitem_row_sequence_late_conversion_failure")
+    def _(T, st):
+        T[0] = _bad_last(_other(T)[0]).tolist()
+
+    @raises("setitem_mask_late_conversion_failure")
+    def _(T, st):
+        m = _mask(T)
+        T[m] = _bad_last(_other(T)[m])
+
+    @raises("setitem_strings_late_conversion_failure")
+    def _(T, st):
+        words = [repr(x) for x in _other(T).ravel().tolist()]
+        words[-1] = "x"
+        T[...] = np.array(words).reshape(T.shape)
+
     # ---- view creation (group "view") -> returns the new live object
     @add("v_slice", "view")
     def _(T, st):
@@ -802,6 +919,58 @@ def _fresh_mesh(m):
     return f
 
 
+def _raising_edits():
+    """
+    name -> edit(array): an overridden in-place operator or method which numpy ends with an
+    exception AFTER it stored (part of) the result; the exception is caught as a program would.
+    An edit numpy refuses outright for the dtype (or completes) is not a member of the class:
+    it says so with NotImplementedError and the harness skips the case.
+    """
+
+    def survive(fn):
+        def edit(a):
+            b0 = np.array(a).tobytes()
+            try:
+                with np.errstate(all="raise"):
+                    fn(a)
+            except (FloatingPointError, IndexError, ValueError, TypeError):
+                if np.array(a).tobytes() != b0:
+                    return
+            raise NotImplementedError("not a store-then-raise edit for this dtype")
+
+        return edit
+
+    def div(a):
+        a /= _zero_last(a)
+
+    def floordiv(a):
+        a //= _zero_last(a)
+
+    def mod(a):
+        a %= _zero_last(a)
+
+    def mul(a):
+        a *= np.full(a.shape, 1.7e308)
+
+    def power(a):
+        a **= 5000
+
+    def put(a):
+        a.put([0, 1, 2, a.size + 5], _other(a).ravel()[:4])
+
+    def setitem(a):
+        a[...] = _bad_last(_other(a))
+
+    def setitem_rows(a):
+        a[1:3] = _bad_last(_other(a)[1:3])
+
+    for name, fn in (("itruediv_zero_divisor", div), ("ifloordiv_zero_divisor", floordiv),
+                     ("imod_zero_divisor", mod), ("imul_overflow", mul), ("ipow_overflow", power),
+                     ("put_late_bad_index", put), ("setitem_late_conversion_failure", setitem),
+                     ("setitem_rows_late_conversion_failure", setitem_rows)):
+        yield name + "_raises", survive(fn)
+
+
 def container_checks(run):
     import trimesh
     from trimesh.caching import DataStore
@@ -838,6 +1007,10 @@ def container_checks(run):
         yield "apply_identity", lambda m: m.apply_transform(np.eye(4)), False
         yield "apply_translation", lambda m: m.apply_translation([1, 2, 3]), True
         yield "density", lambda m: setattr(m, "density", 3.5), True
+        # round 5: in-place operators / methods which store and then raise; the caller survives
+        for rname, redit in _raising_edits():
+            yield "v_" + rname, (lambda m, e=redit: e(m.vertices)), True
+            yield "f_" + rname, (lambda m, e=redit: e(m.faces)), True
 
     for base_name, base in (("box", box), ("ico", ico)):
         for name, edit, changes in mesh_edits():
@@ -974,13 +1147,17 @@ def container_checks(run):
         ("v_reassign", lambda x: setattr(x, "vertices", np.array(x.vertices) * 2)),
         ("apply_transform", lambda x: x.apply_transform(np.array([[1, 0, 4], [0, 1, 0], [0, 0, 1.0]]))),
         ("entity_points", lambda x: setattr(x.entities[0], "points", np.array([0, 1, 2, 0]))),
-    ):
+    ) + tuple(("v_" + rn, (lambda x, e=re_: e(x.vertices))) for rn, re_ in _raising_edits()):
         for pre in (False, True):
             x = mkpath()
             h0 = x.__hash__()
             if pre:
                 _ = x.area, x.length
-            edit(x)
+            try:
+                edit(x)
+            except NotImplementedError:
+                run.skip("not a store-then-raise edit for this dtype")
+                continue
             run.case("container:path:" + name, pre)
             if x.__hash__() == h0:
                 run.violation("container kind=path edit=%s sym=hash_unchanged" % name,
@@ -1055,6 +1232,24 @@ def container_checks(run):
         if np.allclose(np.array(sc.bounds), b0):
             run.violation("container kind=scene edit=equal_geometries:%s sym=stale_bounds" % how,
                           "scene bounds unchanged after scaling every geometry in place", {"how": how})
+
+    # a geometry of a scene edited by a call which stored and then raised
+    for rname, redit in _raising_edits():
+        for attr in ("vertices", "faces"):
+            part = ico.copy()
+            sc = trimesh.Scene([box.copy(), part])
+            h0 = sc.__hash__()
+            try:
+                redit(getattr(part, attr))
+            except NotImplementedError:
+                run.skip("not a store-then-raise edit for this dtype")
+                continue
+            run.case("container:scene:geom_edit_raises", rname, attr)
+            run.count("container_checks")
+            if sc.__hash__() == h0:
+                run.violation("container kind=scene edit=geometry_%s_%s sym=hash_unchanged" % (attr[0], rname),
+                              "a geometry of the scene was changed by an in-place call which ended with an "
+                              "exception; the scene hash did not change", {"edit": rname, "attr": attr})
 
     s2 = trimesh.Scene([box.copy(), ico.copy()])
     s3 = trimesh.Scene([box.copy(), ico.copy()])
@@ -1400,8 +1595,8 @@ def workload(run):
     ops = _ops()
     by_name = {o.name: o for o in ops}
     bases = base_arrays()
-    names = [o.name for o in ops]
-    groups = {g: [o.name for o in ops if o.group == g] for g in ("method", "numpy", "view", "read", "hash")}
+    names = [o.name for o in ops if o.group != "raises"]
+    groups = {g: [o.name for o in ops if o.group == g] for g in ("method", "numpy", "view", "read", "hash", "raises")}
     run.note("operations", {g: len(v) for g, v in groups.items()})
 
     def do(dname, prog):
@@ -1409,7 +1604,7 @@ def workload(run):
         run.case("prog:%s:len%d" % (dname, len(prog)), dname, tuple(prog), nontrivial=nt,
                  sample={"dtype": dname, "program": prog} if nt and run.evaluations % 997 == 0 else None)
 
-    dnames = list(bases)
+    dnames = [d for d in bases if d not in RAISES_ONLY_BASES]
     idx = 0
     # (1) every program of length 1 and 2 on the root, with and without a leading hash read
     for dname in dnames:
@@ -1476,6 +1671,37 @@ def workload(run):
             do(own, [("hash", "root"), (w, "root")])
             do(own, [(w, "root"), ("hash", "root"), (w, "root")])
             do(own, [("hash", "root"), ("r_copy", "root"), ("hash", "last"), (w, "last")])
+    # (2d) writers which store and then raise (group "raises"): alone, after a hash read, twice
+    # around a hash read, before / after an ordinary writer, on roots which own their memory,
+    # and in every position of the view / hash templates of (2)
+    for dname in dnames + list(RAISES_ONLY_BASES):
+        for r in groups["raises"]:
+            idx += 1
+            if not run.mine(idx):
+                continue
+            for dn in (dname, dname + "+own"):
+                do(dn, [(r, "root")])
+                do(dn, [("hash", "root"), (r, "root")])
+                do(dn, [("hash", "root"), (r, "root"), ("hash", "root"), (r, "root")])
+                do(dn, [("hash", "root"), (r, "root"), ("hash", "root")])
+                for w in ("setitem_int", "imul", "fill", "ufunc_out"):
+                    do(dn, [(w, "root"), ("hash", "root"), (r, "root")])
+                    do(dn, [("hash", "root"), (r, "root"), (w, "root")])
+                for fz in ("freeze", "freeze_mutable"):
+                    do(dn, [("hash", "root"), (r, "root"), (fz, "root"), ("hash", "root")])
+                for r2 in groups["raises"]:
+                    do(dn, [("hash", "root"), (r, "root"), (r2, "root")])
+            for v in groups["view"]:
+                for hp in range(8):
+                    for wsel in ("last", "root"):
+                        prog = [("hash", "root")] if hp & 1 else []
+                        prog.append((v, "root"))
+                        if hp & 2:
+                            prog.append(("hash", "root"))
+                        if hp & 4:
+                            prog.append(("hash", "last"))
+                        prog.append((r, wsel))
+                        do(dname, prog)
     # (2b) view-of-view chains
     for dname in ("f8_n3", "i8_n3", "u1_n4"):
         for v1, v2 in itertools.product(groups["view"], groups["view"]):
@@ -1499,7 +1725,7 @@ def workload(run):
         n = int(run.rng.integers(3, maxlen + 1))
         prog = []
         for _ in range(n):
-            g = run.pyrng.choices(["method", "numpy", "view", "read", "hash"], [4, 3, 3, 1, 4])[0]
+            g = run.pyrng.choices(["method", "numpy", "view", "read", "hash", "raises"], [4, 3, 3, 1, 4, 2])[0]
             prog.append((run.pyrng.choice(groups[g]), run.pyrng.choice(["root", "last", 1, 2])))
         do(dname, prog)
         if run.tier == "quick" and run.evaluations > 400000:
